@@ -25,6 +25,29 @@ def isNextSpec (r nx : Range) (sz : UInt64) : Bool :=
   | none => decide (nx = ⟨r.start + sz, none, r.exS, r.exE⟩)
   | some e => decide (nx = ⟨e, some (e + sz), r.exS, r.exE⟩)
 
+/-- Next(size): the range of that length right after the receiver (an open-ended range is shifted by size); arithmetic
+    modulo 2^64, as for every uint64 computation of the code -/
+def nextSpec (r res : Range) (sz : UInt64) : Bool :=
+  res.exS == r.exS && res.exE == r.exE &&
+  match r.stop with
+  | none => res.stop == none && decide (res.start.toNat = (r.start.toNat + sz.toNat) % 2 ^ 64)
+  | some e => decide (res.start = e) &&
+      (match res.stop with | some e' => decide (e'.toNat = (e.toNat + sz.toNat) % 2 ^ 64) | none => false)
+
+/-- Previous(size): the range of that length right before the receiver — it ends where the receiver starts -/
+def prevSpec (r res : Range) (sz : UInt64) : Bool :=
+  res.exS == r.exS && res.exE == r.exE &&
+  decide (res.start.toNat = (r.start.toNat + 2 ^ 64 - sz.toNat) % 2 ^ 64) &&
+  match r.stop with
+  | none => res.stop == none
+  | some _ => res.stop == some r.start
+
+/-- Size: end minus start, an error for an open-ended range -/
+def sizeSpec (r : Range) (res : Option Nat) : Bool :=
+  match r.stop with
+  | none => res == none
+  | some e => res == some ((e.toNat + 2 ^ 64 - r.start.toNat) % 2 ^ 64)
+
 def contiguous : List Range → Bool
   | a :: b :: rest => (a.stop == some b.start) && contiguous (b :: rest)
   | _ => true
